@@ -10,7 +10,7 @@ props = {json.loads(l)["id"]: json.loads(l)["title"] for l in open(os.path.join(
 rows = []
 for root in sys.argv[1:]:
     r = root.rstrip("/")
-    rnd = "r2" if r.endswith("2") else ("r3" if r.endswith("3") else ("r4" if r.endswith("4") else ("r5" if r.endswith("5") else ("r6" if r.endswith("6") else "r1"))))
+    rnd = "r2" if r.endswith("2") else ("r3" if r.endswith("3") else ("r4" if r.endswith("4") else ("r5" if r.endswith("5") else ("r6" if r.endswith("6") else ("r7" if r.endswith("7") else "r1")))))
     for sd in sorted(glob.glob(os.path.join(root, "C??", "?"))):
         cj = os.path.join(sd, "confirm.json")
         if not os.path.exists(cj): continue
